@@ -311,14 +311,35 @@ def rule_g(model, rep):
     call = [c for c in walk_no_nested(fn) if isinstance(c, ast.Call) and ast.unparse(c.func) == "hashlib.pbkdf2_hmac"]
     unit = model.unit(D)
     mapped = False
+    threshold = None
     for c in call:
         t = unit.enclosing(c, ast.Try)
         while t is not None:
-            if any(h.type is not None and "OverflowError" in ast.unparse(h.type) and any(isinstance(x, ast.Raise) and "ValueError" in ast.unparse(x) for x in h.body) for h in t.handlers):
-                mapped = True
+            for h in t.handlers:
+                if h.type is None or "OverflowError" not in ast.unparse(h.type):
+                    continue
+                for x in h.body:
+                    if isinstance(x, ast.Raise) and "ValueError" in ast.unparse(x):
+                        mapped = True       # unconditional translation
+                    # `if rounds > K: raise ValueError(...)` + re-raise: the translation covers rounds > K only, and a C int ends at 2**31 - 1
+                    if isinstance(x, ast.If) and x.body and isinstance(x.body[-1], ast.Raise) and "ValueError" in ast.unparse(x.body[-1]) and isinstance(x.test, ast.Compare) \
+                            and len(x.test.ops) == 1 and isinstance(x.test.ops[0], (ast.Gt, ast.GtE)) and ast.unparse(x.test.left) == "rounds":
+                        k = model.fold(unit, x.test.comparators[0])
+                        threshold = k
+                        if isinstance(k, int) and k + (0 if isinstance(x.test.ops[0], ast.Gt) else -1) <= 0x7FFFFFFF:
+                            mapped = True
             t = unit.enclosing(t, ast.Try)
-    bounded = any(isinstance(n_, ast.If) and "rounds" in ast.unparse(n_.test) and n_.body and isinstance(n_.body[-1], ast.Raise) and "ValueError" in ast.unparse(n_.body[-1]) and (">" in ast.unparse(n_.test)) for n_ in walk_no_nested(fn))
-    rep.check(bool(call) and (mapped or bounded), R, f"{D}:pbkdf2_hmac rounds", "hashlib.pbkdf2_hmac(..., rounds, ...)  # OverflowError for rounds >= 2**31 is not translated",
+    def _pre_bound(n_):
+        # a guard in front of the call (not inside the except handler): `if rounds > K: raise ValueError` with K within a C int
+        if not (isinstance(n_, ast.If) and n_.body and isinstance(n_.body[-1], ast.Raise) and "ValueError" in ast.unparse(n_.body[-1]) and isinstance(n_.test, ast.Compare)
+                and len(n_.test.ops) == 1 and isinstance(n_.test.ops[0], (ast.Gt, ast.GtE)) and ast.unparse(n_.test.left) == "rounds"):
+            return False
+        if unit.enclosing(n_, ast.ExceptHandler) is not None:
+            return False
+        k = model.fold(unit, n_.test.comparators[0])
+        return isinstance(k, int) and k <= 0x7FFFFFFF
+    bounded = any(_pre_bound(n_) for n_ in walk_no_nested(fn))
+    rep.check(bool(call) and (mapped or bounded), R, f"{D}:pbkdf2_hmac rounds", "hashlib.pbkdf2_hmac(..., rounds, ...)  # OverflowError for rounds >= 2**31 is not translated" + (f" (only above {threshold!r})" if threshold is not None else ""),
               "an iteration count the C library cannot take is reported as ValueError (the handlers declare max_rounds = 0xFFFFFFFF, so the parser lets it through)",
               witness="pbkdf2_sha256.verify(pw, '$pbkdf2-sha256$2147483648$<salt>$<chk>') raises OverflowError('iteration value is too great')")
     # the same function re-raises OverflowError for a *key length* beyond a C int (the pinned suite requires that of pbkdf2_hmac itself); the
